@@ -496,6 +496,36 @@ fn fam_table(ctx: &CaseCtx, cov: &mut Cov) -> CaseOut {
             );
         }
     }
+    // raw decoder object whose size in effect was established through a HISTORY of resets
+    // (R20-C08: reset(None) fell back to the construction-time size): constructed for another
+    // size, then reset(Some(x)) [, reset(None)] [after an earlier decode]; same table
+    if b.dict_eff <= u32::MAX as u64 && case_hash(&[&b.file]) % 3 == 0 {
+        let ctor = match rng.below(3) {
+            0 => None,
+            1 => Some(b.true_len + 3),
+            _ => Some(1),
+        };
+        if let Ok(mut d) = sut::raw_lzma_new(b.props.lc, b.props.lp, b.props.pb, b.dict_eff as u32, ctor, None) {
+            let variant = rng.below(3);
+            if variant == 2 {
+                let _ = sut::raw_lzma_decompress(&mut d, &payload[..payload.len() / 2], ReaderKind::Slice, &SharedSink::counting_only(), &sut::new_obs(u64::MAX));
+            }
+            let mut ok = sut::guarded(|| d.reset(Some(b.size_in_effect))).is_ok();
+            if variant >= 1 {
+                ok = ok && sut::guarded(|| d.reset(None)).is_ok();
+            }
+            if ok {
+                let rsink = SharedSink::new();
+                let robs = sut::new_obs(u64::MAX);
+                let rc = sut::raw_lzma_decompress(&mut d, payload, ReaderKind::Slice, &rsink, &robs);
+                out.evals += 1;
+                cov.name(["raw_decoder.new(other size);reset(Some(x))", "raw_decoder.new(other size);reset(Some(x));reset(None)", "raw_decoder.new(other size);decompress;reset(Some(x));reset(None)"][variant as usize], 1);
+                judge(&mut out, &b, &exp, "raw decoder after resets", &rc.verdict, &rsink.bytes(), &b.file);
+            } else {
+                out.violate("C08/raw decoder/reset-panicked".to_string(), format!("reset panicked [{}]", b.desc), J::Null);
+            }
+        }
+    }
     // streaming decoder: same table
     let cuts: Vec<usize> = if rng.chance(1, 2) {
         vec![]
